@@ -99,6 +99,23 @@ func childC17Seq(args []string) int {
 				if strings.HasPrefix(obs.Class, "panic:") {
 					d = "handler panicked"
 				}
+				if d == "" && c.Op == "gete" {
+					// inmem reports the absolute expiry; TTL classes are >= 1000 s apart
+					for _, v := range obs.Values {
+						it := mm.Live(v.Key)
+						if it == nil {
+							continue
+						}
+						switch {
+						case it.Deadline == 0 && v.Exptime != 0:
+							d = "gete reports an expiry for an entry that must never expire"
+						case it.Deadline != 0 && v.Exptime == 0:
+							d = "gete reports no expiry for an entry with a TTL"
+						case it.Deadline != 0 && (v.Exptime+3 < it.Deadline || v.Exptime > it.Deadline+3):
+							d = "gete reports an expiry that differs from the TTL last requested"
+						}
+					}
+				}
 				if tr != nil {
 					*tr = append(*tr, traceEntry{Cmd: c.Short(), Expected: brief(exp), Observed: brief(obs), Diff: d})
 				}
@@ -154,6 +171,12 @@ func childC17Seq(args []string) int {
 	handlerExec(h, wire.Cmd{Op: "set", Key: kp + "gatted", Value: []byte("G"), TTL: 1}, 0)
 	handlerExec(h, wire.Cmd{Op: "gat", Key: kp + "gatted", TTL: 1000}, 0)
 	handlerExec(h, wire.Cmd{Op: "set", Key: kp + "never", Value: []byte("N"), TTL: 0}, 0)
+	handlerExec(h, wire.Cmd{Op: "set", Key: kp + "gat0", Value: []byte("G0"), TTL: 1}, 0)
+	handlerExec(h, wire.Cmd{Op: "gat", Key: kp + "gat0", TTL: 0}, 0)
+	handlerExec(h, wire.Cmd{Op: "set", Key: kp + "touch0", Value: []byte("T0"), TTL: 1}, 0)
+	handlerExec(h, wire.Cmd{Op: "touch", Key: kp + "touch0", TTL: 0}, 0)
+	handlerExec(h, wire.Cmd{Op: "set", Key: kp + "reset", Value: []byte("R"), TTL: 1}, 0)
+	handlerExec(h, wire.Cmd{Op: "replace", Key: kp + "reset", Value: []byte("R2"), TTL: 0}, 0)
 	handlerExec(h, wire.Cmd{Op: "set", Key: kp + "appended", Value: []byte("A"), TTL: 1}, 0)
 	handlerExec(h, wire.Cmd{Op: "append", Key: kp + "appended", Value: []byte("B")}, 0)
 	for _, s := range scens {
@@ -181,7 +204,7 @@ func childC17Seq(args []string) int {
 			run.Violation("inmem|expiry|"+s.name+"|follow-up get: "+d, map[string]interface{}{"command": s.post.Short(), "expected": brief(exp2), "observed": brief(obs2)})
 		}
 	}
-	for _, pk := range []struct{ k, v string }{{"long", "L"}, {"touched", "T"}, {"gatted", "G"}, {"never", "N"}} {
+	for _, pk := range []struct{ k, v string }{{"long", "L"}, {"touched", "T"}, {"gatted", "G"}, {"never", "N"}, {"gat0", "G0"}, {"touch0", "T0"}, {"reset", "R2"}} {
 		obs := handlerExec(h, wire.Cmd{Op: "get", Keys: []string{kp + pk.k}, Opaque: 1}, 0)
 		run.Count("expiry_scenarios", 1)
 		run.Distinct("present|" + pk.k)
@@ -239,6 +262,13 @@ func childC17Conc(args []string) int {
 	fmt.Sscan(args[2], &rep)
 	h := newInmem()
 	now := func() uint32 { return uint32(time.Now().Unix()) }
+	// entries that have expired but are still in the map: reads of them must behave like reads
+	// of missing keys, also when many goroutines read them at once
+	nexp := 3000
+	for i := 0; i < nexp; i++ {
+		handlerExec(h, wire.Cmd{Op: "set", Key: fmt.Sprintf("expired.%d.%d", rep, i), Value: []byte("e"), TTL: 1}, 0)
+	}
+	time.Sleep(2100 * time.Millisecond)
 	var wg sync.WaitGroup
 	start := make(chan struct{})
 	for gi := 0; gi < ng; gi++ {
@@ -255,8 +285,12 @@ func childC17Conc(args []string) int {
 				own := ns + fmt.Sprint(rng.Intn(4))
 				switch rng.Intn(10) {
 				case 0, 1, 2:
-					// read of a key that nobody ever wrote
+					// read of a key that nobody ever wrote, or of entries that expired a second ago
 					c = wire.Cmd{Op: "get", Keys: []string{fmt.Sprintf("missing.%d.%d", gi, rng.Intn(1000))}, Opaque: 1}
+					if rng.Intn(2) == 0 {
+						c.Keys = []string{fmt.Sprintf("expired.%d.%d", rep, rng.Intn(nexp)), fmt.Sprintf("expired.%d.%d", rep, rng.Intn(nexp))}
+						c.NoopEnd = true
+					}
 					if rng.Intn(2) == 0 {
 						c.Op = "gete"
 					}
